@@ -58,6 +58,17 @@ pub fn build_world(scn: &Scenario, built: &Built, layout: &Layout, faults: &[Dis
         fs::remove_dir_all(dir).map_err(e)?;
     }
     fs::create_dir_all(dir).map_err(e)?;
+    // the sibling directory that holds the targets of symbolic links belongs to this world too
+    let side_dir = dir.parent().unwrap_or(dir).join(format!("{}-moved", dir.file_name().and_then(|n| n.to_str()).unwrap_or("data")));
+    if side_dir.exists() {
+        fs::remove_dir_all(&side_dir).map_err(e)?;
+    }
+    if let Some(k) = &layout.side_xor {
+        if !layout.xor_symlink {
+            fs::create_dir_all(&side_dir).map_err(e)?;
+            fs::write(side_dir.join("xor.dat"), &k.0).map_err(e)?;
+        }
+    }
     let magic = coin_params(&scn.coin).magic.to_le_bytes();
     let key: Vec<u8> = layout.xor_key.as_ref().map(|k| k.0.clone()).unwrap_or_default();
     let mut info = WorldInfo {
@@ -112,7 +123,16 @@ pub fn build_world(scn: &Scenario, built: &Built, layout: &Layout, faults: &[Dis
             let real = side.join(&name);
             let _ = fs::remove_file(&real);
             std::os::unix::fs::symlink(&real, dir.join(&name)).map_err(e)?;
-            real
+            if layout.link_chain {
+                let objects = side.join("objects");
+                fs::create_dir_all(&objects).map_err(e)?;
+                let obj = objects.join(format!("SHA256-{:016x}", f.number.wrapping_mul(0x9e37_79b9_7f4a_7c15)));
+                let _ = fs::remove_file(&obj);
+                std::os::unix::fs::symlink(&obj, &real).map_err(e)?;
+                obj
+            } else {
+                real
+            }
         } else {
             dir.join(&name)
         };
